@@ -213,6 +213,10 @@ def lattice_programs():
     for i in inner:
         if i[0] != "lt":
             progs += [("select", lt, i, y), ("select", lt, x, i), ("select", ("lt", i, y), x, y)]
+    gt_, ne_ = ("gt", x, ("c", 0)), ("ne", x, y)
+    for cnd in (("logical_not", ("logical_and", lt, gt_)), ("logical_not", ("logical_or", lt, gt_)), ("logical_and", ("logical_not", lt), gt_), ("logical_or", ("logical_not", ("logical_and", lt, ne_)), gt_),
+                ("logical_not", ("logical_not", lt)), ("logical_not", ("select", lt, gt_, ne_)), ("logical_and", ("logical_or", lt, gt_), ("logical_not", ("logical_or", ne_, gt_)))):
+        progs += [cnd, ("select", cnd, x, y)]
     progs += [("logical_not", lt), ("logical_and", lt, ("gt", x, y)), ("logical_or", lt, ("eq", x, y)), ("select", ("logical_and", lt, ("ne", x, y)), x, y), ("select", ("logical_not", lt), x, y),
               ("select", ("logical_or", ("select", lt, lt, ("gt", x, y)), lt), x, y)]
     for c in CONSTS:
@@ -649,7 +653,8 @@ def w_lattice(task):
     fa = setup_repo_import()
     part = new_part()
     TWINS = set(twin_constant_programs()) | {("complex", ("x",), ("y",)), ("real", ("complex", ("x",), ("y",))), ("imag", ("complex", ("x",), ("y",))), ("add", ("x",), ("y",)), ("select", ("lt", ("x",), ("y",)), ("x",), ("y",)),
-                                             ("maximum", ("x",), ("y",)), ("atan2", ("x",), ("y",)), ("multiply", ("add", ("x",), ("y",)), ("y",))}
+                                             ("atan2", ("x",), ("y",)), ("multiply", ("add", ("x",), ("y",)), ("y",))}
+    # (maximum/minimum on operands of different widths return an operand unchanged: recorded under C08, not repeated here)
     progs = lattice_programs()[task["lo"]::task["stride"]]
     workdir = tempfile.mkdtemp(prefix="c05_", dir="/var/tmp")
     try:
